@@ -163,6 +163,8 @@ int main(int argc, char **argv) {
             e.blob = descs(n, (uint64_t)*gx::range<int>(0, 1000));
             Op filler; filler.kind = K_RAW; filler.blob = *gx::bytes(0, 200);   // stale bytes in the daemon buffer
             c.ops = {d, filler, e};
+            int more = *gx::pick({0, 0, 1, 2});   // further over-declared Emits in the same session (no Reset in between): each one is bounded like the first
+            for (int k = 0; k < more; k++) { Op e2 = e; e2.a = {-1, *hg::seq_gen(), *gx::pick({(int64_t)cap + 1, 300, 0x7FFF, 0xFFFF})}; c.ops.push_back(e2); }
             return c;
         });
         ok = run_cases(a, ev, "c06-overdeclared", a.n(8000, 60000), 100, gen, run);
